@@ -22,8 +22,8 @@ type C13Case struct {
 	// ChildrenOnly (with UseNext): the block's transactions are only used as
 	// unconfirmed parents; the set handed over holds just the children built on
 	// top of them (a renter transaction rebased alone, a relayed child)
-	ChildrenOnly bool `json:"children_only,omitempty"`
-	Extra   []kit.Intent `json:"extra,omitempty"`    // further transactions built on top
+	ChildrenOnly bool         `json:"children_only,omitempty"`
+	Extra        []kit.Intent `json:"extra,omitempty"` // further transactions built on top
 	// Corrupt: 0 none, 1 flip a proof hash, 2 change a leaf index, 3 unknown basis id, 4 basis with a wrong height
 	Corrupt int `json:"corrupt,omitempty"`
 	// Pool family: also pool the set on the tip and ask for broadcastable sets
